@@ -292,7 +292,7 @@ def make_sink(w, flavour, log):
 
 # ------------------------------------------------------------------ building the TestCase
 
-def build_case(w, prog, log, clock, scratch, sink_factory):
+def build_case(w, prog, log, clock, scratch, sink_factory, hints=frozenset()):
     _, skip_deco, xfail_deco, su, bo, td, handlers, n_on_exc, attrs0, flavour = prog
     tt = w.tt
 
@@ -341,14 +341,32 @@ def build_case(w, prog, log, clock, scratch, sink_factory):
                     raise
         return Fx()
 
+    def mk_bad_details_fixture(case, cleanup_stage, e):
+        class FxBad(w.fixtures.Fixture):
+            def _setUp(self):
+                self.addCleanup(run_stage, case, cleanup_stage)
+                self._armed = True
+
+            def getDetails(self):
+                if getattr(self, '_armed', False):
+                    self._armed = False
+                    raise w.make_exc(e)
+                return super().getDetails()
+        return FxBad()
+
     def run_stage(case, st, upcall=None):
         _, sid, acts, term = st
         clock.t += 1
         log.append(['stage', sid])
         if upcall is not None:
             upcall()
-        for a in acts:
+        for idx, a in enumerate(acts):
             k = a[0]
+            if k == 'cleanup' and sid in hints and idx == len(acts) - 1 and isinstance(term, list) and term[0] == 'raise1':
+                # realisation hint: the same behaviour (register the cleanup, then raise) through useFixture() of a fixture
+                # whose setUp succeeds and whose getDetails() raises when useFixture asks for it
+                case.useFixture(mk_bad_details_fixture(case, a[1], term[1]))
+                raise AssertionError('harness: useFixture should have raised')
             if k == 'cleanup':
                 case.addCleanup(run_stage, case, a[1])
             elif k == 'addDetail':
@@ -468,7 +486,8 @@ def attr_canon(x):
 def run_program(inp):
     """-> list of trace trees, one per run of the same instance"""
     w = world()
-    prog, runs = inp
+    prog, runs = inp[0], inp[1]
+    hints = set(inp[2]) if len(inp) > 2 else set()
     flavour = prog[-1]
     attrs0 = prog[8]
     log = []
@@ -482,7 +501,7 @@ def run_program(inp):
         s = make_sink(w, flavour if flavour != 'none_' else 'none_', log)
         sink_box.append(s)
         return s
-    case = build_case(w, prog, log, clock, scratch, sink_factory)
+    case = build_case(w, prog, log, clock, scratch, sink_factory, hints)
     traces = []
     for _ in range(runs):
         del log[:]
@@ -672,7 +691,20 @@ class Gen:
 
 def gen_input(rng, focus='all'):
     g = Gen(rng, focus)
-    return [g.program(), rng.choice([1, 1, 2, 2, 3])]
+    prog = g.program()
+    runs = rng.choice([1, 1, 2, 2, 3])
+    hints = []
+    if rng.random() < 0.15:
+        # pick a stage, make it end with "register a cleanup, then raise" and ask for the fixture realisation of that
+        st = rng.choice(list(all_stages(prog)))
+        g.sid += 1
+        cu = ['stage', g.sid, [], rng.choice(['ret', 'ret', ['raise1', g.exc([('exc', 3), ('failure', 2), ('skip', 1)])]])]
+        st[2].append(['cleanup', cu])
+        if not (isinstance(st[3], list) and st[3][0] == 'raise1' and st[3][1][0] in ('exc', 'failure', 'skip')):
+            st[3] = ['raise1', g.exc([('exc', 3), ('failure', 2), ('skip', 1)])]
+        if not (prog[2] and st is prog[4]):       # not under the expectedFailure decorator (it would wrap the exception)
+            hints.append(st[1])
+    return [prog, runs, hints] if hints else [prog, runs]
 
 
 # ------------------------------------------------------------------ program inspection (features, shrinking)
@@ -708,8 +740,8 @@ def exc_kinds(prog):
 
 
 def features(inp, traces):
-    prog, runs = inp
-    f = ['flavour=' + prog[-1], 'runs=%d' % runs]
+    prog, runs = inp[0], inp[1]
+    f = ['flavour=' + prog[-1], 'runs=%d' % runs] + (['hint:fixture-getDetails-raises'] if len(inp) > 2 else [])
     sts = list(all_stages(prog))
     faulty = [s for s in sts if s[3] != 'ret']
     f.append('stages=%s' % (len(sts) if len(sts) < 8 else '8+'))
@@ -765,6 +797,11 @@ def shrink_stage(st):
 
 
 def shrink(inp):
+    if len(inp) > 2:
+        yield [inp[0], inp[1]]                     # drop the realisation hints
+        for cand in shrink([inp[0], inp[1]]):
+            yield cand + [inp[2]]
+        return
     prog, runs = inp
     if runs > 1:
         yield [prog, runs - 1]
